@@ -102,8 +102,11 @@ func history(c *explore.Ctx, cf cfg) (viol []verdict, trace []string, outcome st
 	bad := func(key, format string, a ...any) { viol = append(viol, verdict{key, fmt.Sprintf(format, a...)}) }
 	w := lab.NewWorld(cf.kind, cf.enc)
 	owners := []*lab.Server{w.Owner, w.Owner2, lab.NewMemServer("owner3", "owner3")}
-	for _, o := range owners {
+	for oi, o := range owners {
 		o.Reuse = cf.reuse
+		if !cf.reuse && oi == 2 {
+			o.TO2.ReuseCredential = nil // the callback is optional: without it credentials are replaced
+		}
 		// new owners assign fresh rendezvous info so that old and new header differ in more than GUID and key
 		o.RvInfo = [][]protocol.RvInstruction{{{Variable: protocol.RVDns, Value: mustCBOR("rv-" + o.Name + ".example")}, {Variable: protocol.RVProtocol, Value: mustCBOR(uint8(1))}}}
 	}
